@@ -389,3 +389,33 @@ pub fn g7_nested_empty(f: &F) -> Vec<String> {
     }
     out
 }
+
+/// G9: every ORDERED PAIR of 44 special code points (joiners, variation selectors, combining marks, direction marks,
+/// BOM, soft hyphen, blanks of several kinds, emoji, regional indicators, keycap, tag characters, CJK, half-width,
+/// surrogate-range neighbours, the extremes) in four templates: the pair alone at the end of a term, at its start, inside
+/// a name, and after a set's opening bracket. Single code points are G6's business; what only a specific pair of
+/// neighbours triggers is here.
+pub fn g9_special_pairs(f: &F) -> Vec<String> {
+    let specials: [char; 44] = [
+        '\u{200d}', '\u{200c}', '\u{fe0f}', '\u{fe0e}', '\u{301}', '\u{308}', '\u{20e3}', '\u{200e}', '\u{200f}', '\u{202e}', '\u{2066}', '\u{feff}', '\u{ad}',
+        '\u{a0}', '\u{3000}', '\u{2028}', '\u{85}', '\u{0}', '\u{7f}', '\u{1f468}', '\u{1f469}', '\u{1f680}', '\u{1f1e8}', '\u{1f1f3}', '\u{1f3fb}', '\u{2764}', '\u{2728}',
+        '\u{e0001}', '\u{e007f}', '\u{e0101}', '\u{7532}', '\u{ff71}', '\u{ff10}', '\u{d7ff}', '\u{e000}', '\u{fffd}', '\u{ffff}', '\u{10000}', '\u{10ffff}',
+        'a', '0', '-', '_', '\u{e9}',
+    ];
+    let e = f.e;
+    let (sl, sr) = e.compound.brackets_set_extension;
+    let (tl, cop) = (e.statement.brackets.0, e.statement.copula_inheritance);
+    let mut out = Vec::with_capacity(specials.len() * specials.len() * 5);
+    for x in specials {
+        for y in specials {
+            out.push(format!("{x}{y}"));
+            out.push(format!("a{x}{y}"));
+            out.push(format!("{x}{y}a{}", e.sentence.punctuation_judgement));
+            out.push(format!("a{x}{y}b"));
+            out.push(format!("{sl}{x}{y}{sr}"));
+            out.push(format!("{tl}a {cop} {x}{y}"));
+            out.push(format!("{}{}{} a{} {x}{y}", e.compound.brackets.0, e.compound.connecter_product, e.compound.separator, e.compound.separator));
+        }
+    }
+    out
+}
